@@ -16,7 +16,7 @@ def all_entries():
     return gen.load_contracts(paths)
 
 
-def module_prologues():
+def module_prologues(with_clients=False):
     glue = open(os.path.join(ROOT, 'spec', 'glue.rs'), encoding='utf-8').read()
     pro = {'': glue}
     common = ('#[allow(unused_imports)] use crate::*;\n#[allow(unused_imports)] use crate::prelude::*;\n'
@@ -32,7 +32,7 @@ def module_prologues():
               '#[allow(unused_imports)] use crate::num_integer::Integer as IntegerTrait;\n'
               )
     pro['*'] = common
-    for m in set(gen.MODULE_OF.values()):
+    for m in list(set(gen.MODULE_OF.values())) + (gen.EXTRA_MODULES if with_clients else []):
         if m:
             extra = os.path.join(ROOT, 'spec', 'mod_%s.rs' % m.replace('::', '_'))
             imp = ''.join('#[allow(unused_imports)] use crate::%s::*;\n' % x for x in ('arithmetic', 'rounding') if x != m)
@@ -41,12 +41,12 @@ def module_prologues():
     return pro
 
 
-def generate(units=None, repo=None, no_body_hints=()):
+def generate(units=None, repo=None, no_body_hints=(), with_clients=False):
     entries = all_entries()
     em = gen.build(entries, units, repo=repo, no_body_hints=no_body_hints)
     prelude = open(os.path.join(ROOT, 'spec', 'prelude.rs'), encoding='utf-8').read()
     vs = open(os.path.join(ROOT, 'spec', 'vs.rs'), encoding='utf-8').read()
-    text, line_map = gen.render(em, prelude, gen_shim() + '\n' + vs, module_prologues())
+    text, line_map = gen.render(em, prelude, gen_shim() + '\n' + vs, module_prologues(with_clients or (units is None) or ('clients' in units)))
     return text, line_map, em, entries
 
 
